@@ -94,6 +94,26 @@ def monitor(lines, impl, which):
         if w[0] == "net":
             apply_net(ns, w)
         if ret == "obs":
+            if which == "C07":
+                # the timer contract judged on each process's event log: requested operations and firings in order
+                for l in entries:
+                    m = re.match(r"P (\S+) (\S+) st=\S* out=\S* s=\d+ r=\d+ log=\[(.*)\]$", l)
+                    if not m:
+                        continue
+                    pend = set()
+                    for ev in re.findall(r"[0-9a-f]{16}:(tset|tcancel|tfired)\(([^()]*)\)", m.group(3)):
+                        kind, args = ev[0], ev[1].split(",")
+                        name = args[0]
+                        if kind == "tset":
+                            if args[2] == "0" or name not in pend:
+                                pend.add(name)
+                        elif kind == "tcancel":
+                            pend.discard(name)
+                        else:
+                            if name not in pend:
+                                return (f"process {m.group(1)}: timer {name} fired although no instance of it is pending by the contract "
+                                        f"(it was cancelled, overridden, already fired, or set_timer_once was ignored)")
+                            pend.discard(name)
             if which == "C17":
                 for l in entries:
                     m = re.match(r"P (\S+) (\S+) st=\S* out=\S* s=(\d+) r=(\d+) log=\[(.*)\]$", l)
